@@ -135,6 +135,27 @@ var synthHosts = []string{
 	"mail.example.co.uk", "*.*.example.com", "example.com.", " example.com", "xn--a.example.com", "sub.*.example.com", "1.example.com", "b.example.com", "a.example.com", "c.example.com",
 }
 
+// synthIDNHosts: names whose labels are A-labels of every sort - well-formed and NFC, well-formed but not
+// NFC (decomposed sequences), malformed Punycode, mixed case prefixes, an A-label under a wildcard, several
+// A-labels in one name. A certificate of the "idn" archetype takes several of them in a seeded order, so that
+// rules walking the labels meet them in every relative order.
+var synthIDNHosts = []string{
+	"xn--9ca.example.com", "xn--mnchen-3ya.de", "www.xn--mnchen-3ya.example", "xn--ri7csaa.example.org", "xn--p1ai", "shop.xn--p1ai",
+	"xn--ex-8tb.example.com", "xn--a-gcb.example.net", "xn--munchen-gie.de", "xn--nda82i.example.com", "a.xn--ex-8tb.xn--9ca.example.com",
+	"xn--0.example.com", "xn--a.example.com", "xn--.example.com", "xn--zlint.org", "xn--12311613412431243.com", "www.xn--0.xn--9ca.example.com",
+	"XN--9CA.example.com", "xN--mnchen-3ya.de", "*.xn--9ca.example.com", "xn--9ca.xn--ex-8tb.example.org", "xn--ex-8tb.xn--0.example.org",
+	"xn--0.xn--ex-8tb.example.org", "plain.example.com", "xn--80ak6aa92e.com", "xn--e1afmkfd.xn--p1ai",
+}
+
+// synthURIs: uniform resource identifiers whose authority is a full name, a single label, an address literal
+// of either family (scoped, with a port), empty, or missing
+var synthURIs = []string{
+	"https://example.com/x", "ldap://example.com", "urn:uuid:1", "http://*.example.com", "no-scheme",
+	"https://localhost/", "https://intranet-host/app", "http://example", "https://10.0.0.1/", "https://[2001:db8::1]:8443/x", "https://[fe80::1%25eth0]/",
+	"https://fe80::1%25eth0/", "https://user:pw@host-only/", "https:///path-only", "https://xn--0.example.com/", "ldap://localhost:389/dc=example", "http://256.1.1.1/", "https://example.com:443",
+	"HTTPS://EXAMPLE.COM/", "https://example.invalidtld/", "file:///etc/passwd", "https://a_b/", "http://1/", "tag:example.com,2024:x",
+}
+
 var synthEKUs = []string{
 	"1.3.6.1.5.5.7.3.1", "1.3.6.1.5.5.7.3.2", "1.3.6.1.5.5.7.3.3", "1.3.6.1.5.5.7.3.4", "1.3.6.1.5.5.7.3.8", "1.3.6.1.5.5.7.3.9", "2.5.29.37.0",
 	"1.3.6.1.4.1.311.10.3.12", "1.3.6.1.4.1.311.20.2.2", "1.2.3.4.5.6", "1.3.6.1.5.5.7.3.17", "1.3.6.1.4.1.11129.2.4.4",
@@ -259,12 +280,12 @@ func synthGeneralNames(g *RNG, hosts []string) []byte {
 		case 0:
 			gns = append(gns, ctxPrim(1, []byte(pick(g, []string{"a@example.com", "b@example.org", "", "not an email", "Ü@example.com"}))))
 		case 1:
-			gns = append(gns, ctxPrim(6, []byte(pick(g, []string{"https://example.com/x", "ldap://example.com", "urn:uuid:1", "http://*.example.com", "no-scheme"}))))
+			gns = append(gns, ctxPrim(6, []byte(pick(g, synthURIs))))
 		case 2:
 			ip := pick(g, []net.IP{net.IPv4(10, 0, 0, 1).To4(), net.IPv4(8, 8, 8, 8).To4(), net.IPv4(192, 168, 1, 1).To4(), net.ParseIP("2001:db8::1"), net.ParseIP("fe80::1"), {1, 2, 3}})
 			gns = append(gns, ctxPrim(7, ip))
 		case 3:
-			gns = append(gns, ctxCons(0, doid("1.3.6.1.5.5.7.8.9"), ctxCons(0, dstr("utf8", pick(g, []string{"ü@example.com", "a@example.com", ""})))))
+			gns = append(gns, synthSmtpUTF8Mailbox(g))
 		case 4:
 			gns = append(gns, ctxCons(4, synthName(g, nil, false)))
 		case 5:
@@ -280,6 +301,29 @@ func synthGeneralNames(g *RNG, hosts []string) []byte {
 		gns = out
 	}
 	return dseq(gns...)
+}
+
+// synthSmtpUTF8Mailbox: an otherName of type id-on-SmtpUTF8Mailbox whose value is a UTF8String (ASCII,
+// non-ASCII, empty), a string of another type, bytes that are not valid UTF-8, a value followed by more bytes
+func synthSmtpUTF8Mailbox(g *RNG) []byte {
+	var v []byte
+	switch g.Intn(9) {
+	case 0, 1, 2:
+		v = dstr("utf8", pick(g, []string{"ü@example.com", "a@example.com", "медведь@с-балалайкой.рф"}))
+	case 3:
+		v = dstr("utf8", "")
+	case 4:
+		v = doctet([]byte("a@example.com"))
+	case 5:
+		v = dstr(pick(g, []string{"ia5", "printable", "bmp"}), "a@example.com")
+	case 6:
+		v = tlv(0x0c, []byte("a\xff\xfe@example.com"))
+	case 7:
+		v = append(dstr("utf8", "a@example.com"), 0x05, 0x00)
+	case 8:
+		v = dseq(dstr("utf8", "a@example.com"))
+	}
+	return ctxCons(0, doid("1.3.6.1.5.5.7.8.9"), ctxCons(0, v))
 }
 
 // stripTL returns the content octets of a DER TLV.
@@ -343,7 +387,7 @@ func synthCert(g *RNG, idx []string) *ObjSpec {
 	}
 	for tries := 0; tries < 8; tries++ {
 		// ---- archetype: independent random features rarely add up to a coherent certificate of some type
-		arch := pick(g, []string{"random", "random", "random", "random", "tls", "tls", "ev-onion", "smime", "codesigning", "ca", "tls-removed-tld", "many-names"})
+		arch := pick(g, []string{"random", "random", "random", "random", "tls", "tls", "ev-onion", "smime", "codesigning", "ca", "tls-removed-tld", "many-names", "idn"})
 		if synthForceManyNames > 0 {
 			arch = "many-names"
 		}
@@ -384,6 +428,14 @@ func synthCert(g *RNG, idx []string) *ObjSpec {
 		case "tls":
 			forcedEKU = []string{"1.3.6.1.5.5.7.3.1"}
 			forcedPol = []string{pick(g, []string{"2.23.140.1.2.1", "2.23.140.1.2.2", "2.23.140.1.1"})}
+		case "idn":
+			// a server certificate whose names carry A-labels of every sort, in a seeded order
+			forcedEKU = []string{"1.3.6.1.5.5.7.3.1"}
+			forcedPol = []string{pick(g, []string{"2.23.140.1.2.1", "2.23.140.1.2.2"})}
+			hosts = hosts[:0]
+			for i := g.Range(2, 6); i > 0; i-- {
+				hosts = append(hosts, pick(g, synthIDNHosts))
+			}
 		case "ev-onion":
 			forcedEKU = []string{"1.3.6.1.5.5.7.3.1"}
 			forcedPol = []string{"2.23.140.1.1"}
@@ -430,6 +482,9 @@ func synthCert(g *RNG, idx []string) *ObjSpec {
 		if arch == "tls-removed-tld" {
 			nb = time.Date(2017, 1, 1, 0, 0, 0, 0, time.UTC).Add(time.Duration(g.Intn(5*365*24)) * time.Hour)
 		}
+		if arch == "idn" && g.Chance(0.8) {
+			nb = time.Date(2018, 6, 1, 0, 0, 0, 0, time.UTC).Add(time.Duration(g.Intn(6*365*24)) * time.Hour)
+		}
 		na := nb.Add(time.Duration(pick(g, []int{1, 30, 90, 200, 397, 398, 825, 1200, 3650, 9000})) * 24 * time.Hour)
 		if g.Chance(0.05) {
 			na = nb.Add(-time.Hour)
@@ -456,7 +511,16 @@ func synthCert(g *RNG, idx []string) *ObjSpec {
 		if arch == "smime" {
 			gn := synthGeneralNames(g, nil)
 			inner := gn[len(gn)-len(stripTL(gn)):]
-			add(dext("2.5.29.17", g.Chance(0.1), dseq(ctxPrim(1, []byte(pick(g, []string{"a@example.com", "B.C@example.org"}))), inner)))
+			mailbox := ctxPrim(1, []byte(pick(g, []string{"a@example.com", "B.C@example.org"})))
+			if g.Chance(0.3) {
+				// the mailbox is named by an internationalised otherName only
+				mailbox = synthSmtpUTF8Mailbox(g)
+				if g.Chance(0.5) {
+					inner = nil
+					forcedPol = nil
+				}
+			}
+			add(dext("2.5.29.17", g.Chance(0.1), dseq(mailbox, inner)))
 		} else if len(hosts) > 0 || g.Chance(0.3) {
 			gn := synthGeneralNames(g, hosts)
 			if len(uriHosts) > 0 {
@@ -467,6 +531,14 @@ func synthCert(g *RNG, idx []string) *ObjSpec {
 				gn = dseq(inner...)
 			}
 			add(dext("2.5.29.17", g.Chance(0.1), gn))
+		}
+		if g.Chance(0.12) {
+			// issuer alternative names
+			var ih []string
+			if g.Chance(0.5) {
+				ih = []string{pick(g, synthHosts)}
+			}
+			add(dext("2.5.29.18", false, synthGeneralNames(g, ih)))
 		}
 		if len(forcedEKU) > 0 {
 			ekus := [][]byte{doid(forcedEKU[0])}
@@ -653,15 +725,17 @@ func synthCRL(g *RNG, idx []string) *ObjSpec {
 		// now and then a large list: thousands of entries with serial numbers 1..n (two such lists share
 		// most of their serials, as successive CRLs of one issuer do), with or without a repeated serial
 		bigList := g.Chance(0.05) || synthForceBigCRL
-		dupAt, dupOf := -1, 0
+		dups := map[int]int{} // position -> serial repeated there (one or several repeated serials, near and far apart)
 		if bigList {
 			nRev = pick(g, []int{1200, 4500, 4500, 9000})
 			if synthForceCRLEntries > 0 {
 				nRev = synthForceCRLEntries
 			}
 			if g.Chance(0.5) {
-				dupAt = g.Range(nRev/2, nRev-1)
-				dupOf = 1 + g.Intn(dupAt)
+				for k := pick(g, []int{1, 1, 2, 3, 6}); k > 0; k-- {
+					at := g.Range(nRev/2, nRev-1)
+					dups[at] = 1 + g.Intn(at)
+				}
 			}
 		}
 		var revs [][]byte
@@ -672,8 +746,8 @@ func synthCRL(g *RNG, idx []string) *ObjSpec {
 			}
 			if bigList {
 				serial = big.NewInt(int64(i + 1))
-				if i == dupAt {
-					serial = big.NewInt(int64(dupOf))
+				if of, ok := dups[i]; ok {
+					serial = big.NewInt(int64(of))
 				}
 				if i >= 8 {
 					// plain entries after the first few: serial and date only
